@@ -1,20 +1,21 @@
 package harness
 
 import (
-	"os"
-	"sync/atomic"
 	"context"
 	"fmt"
 	"math"
+	"os"
 	"sort"
 	"strconv"
 	"strings"
+	"sync"
+	"sync/atomic"
 	"time"
 
 	corev1 "k8s.io/api/core/v1"
 	policyv1 "k8s.io/api/policy/v1"
-	metav1 "k8s.io/apimachinery/pkg/apis/meta/v1"
 	"k8s.io/apimachinery/pkg/api/resource"
+	metav1 "k8s.io/apimachinery/pkg/apis/meta/v1"
 	"k8s.io/apimachinery/pkg/labels"
 	"k8s.io/apimachinery/pkg/types"
 	"k8s.io/apimachinery/pkg/util/intstr"
@@ -24,10 +25,10 @@ import (
 	v1 "sigs.k8s.io/karpenter/pkg/apis/v1"
 	"sigs.k8s.io/karpenter/pkg/controllers/disruption"
 	"sigs.k8s.io/karpenter/pkg/controllers/dynamicresources/deviceallocation"
-	"sigs.k8s.io/karpenter/pkg/controllers/provisioning"
-	"sigs.k8s.io/karpenter/pkg/state/virtualpods"
 	ncdisruption "sigs.k8s.io/karpenter/pkg/controllers/nodeclaim/disruption"
 	"sigs.k8s.io/karpenter/pkg/controllers/nodeclaim/lifecycle"
+	"sigs.k8s.io/karpenter/pkg/controllers/provisioning"
+	"sigs.k8s.io/karpenter/pkg/state/virtualpods"
 
 	"verif/harness/ev"
 	"verif/harness/gen"
@@ -518,6 +519,7 @@ func (m *recMethod) ComputeCommands(ctx context.Context, budgets map[string]int,
 	}
 	for _, cn := range candidates {
 		r.Candidates = append(r.Candidates, cn.Name())
+		m.run.candObjs.Store(cn.ProviderID(), cn)
 	}
 	sort.Strings(r.Candidates)
 	cmds, err := m.Method.ComputeCommands(ctx, budgets, candidates...)
@@ -573,6 +575,8 @@ type dRun struct {
 	inCtrl, inStart, inQueue atomic.Bool
 	// started: every command that entered the queue, as the queue holds it
 	started []*disruption.Command
+	// candObjs: provider id -> the latest Candidate object a method was offered for it
+	candObjs sync.Map
 }
 
 // dSnap is the API state at one instant plus the harness-side facts.
